@@ -46,6 +46,7 @@ type Engine struct {
 	curFn   string
 	verbose bool
 	forceMerge bool
+	noMerge    bool // `option nomerge` of the function under verification
 	assignedFields map[string]bool // heap keys of struct fields assigned somewhere in the loaded packages (others are set only by composite literals: immutable)
 }
 
